@@ -31,6 +31,7 @@ def check(run: Run) -> None:
     run.rule("C05.R3", "inline only plain positional calls; arguments resolved before the parameter map is pushed; map popped; innermost-first lookup; else call intact")
     run.rule("C05.R4", "rewrite_func_as_lambda: exactly one non-docstring statement, a Return, else ValueError; Lambda(f.args, ret.value)")
     run.rule("C05.R5", "each inlined helper is a fresh parse (no shared cached AST)")
+    run.rule("C05.R10", "an inlined helper's own free variables are captured from its own closure and module (D43); helpers already being inlined are left by name")
     ctx = TermCtx(m, max_depth=2, opaque={"_parse_source_for_lambda", "as_literal"}, identity={"lambda_unwrap"})
     cls = m.find_class("_resolve_called_lambdas", in_module="func_adl.util_ast")
     vc = cls.methods.get("visit_Call")
@@ -242,6 +243,7 @@ def check(run: Run) -> None:
     rvn = _view5(m, rvn)
     f5 = ctx.analysis(rvn)
     n_l = 0
+    n_cap5 = 0
     nodep5 = ("param", rvn.pos_params[1])
     for s, n in f5.returns():
         t = strip_sites(f5.term_of(s.value, n))
@@ -254,9 +256,16 @@ def check(run: Run) -> None:
             def _is_parse(x):
                 return x[0] == "app" and x[1][0] == "global" and x[1][1].endswith("_parse_source_for_lambda") and bool(x[2]) and x[2][0] == v5
 
+            captured5 = a[0] == "tvisit" and a[1].endswith("_rewrite_captured_vars")
+            if captured5:
+                n_cap5 += 1
+                a = a[2]  # the helper's own free variables are frozen on the way (R10)
             fresh = _is_parse(a) or (a[0] == "app" and a[1] == ("global", "copy.deepcopy") and len(a[2]) == 1 and _is_parse(a[2][0]))
+            run.check(captured5, "C05.R10", rvn, s, "the inlined helper has been through a capture rewriter of its own", "the body of a captured helper is spliced in as parsed: the free variables of the helper (a cut value of its module, a variable of the function that defines it, a further helper it calls) stay in the query as bare names - unbound, or captured by a parameter of the calling lambda that happens to have the name", "_rewrite_captured_vars(global_getclosurevars(helper)).visit(parsed helper)", show(a), key="helper spliced in without capturing its own free variables")
             run.check(fresh, "C05.R5", rvn, s, "inlined helper is a fresh parse of its source", f"a helper's AST is taken from {show(a)[:100]} instead of a fresh parse: the same node object is inlined at several call sites, and the in-place substitution of one call leaks into the others", "parse the helper afresh for every occurrence (or deep-copy it)", show(a))
     run.floor("C05.R5", n_l, 1, "helper-inlining return in _rewrite_captured_vars.visit_Name")
+    if n_cap5:
+        check_helper_closure(run, ctx, m, rcv, "C05.R10")
     from ..lib import memoised_functions
 
     for mf, deco in memoised_functions(m):
@@ -268,8 +277,35 @@ def check(run: Run) -> None:
         for s, n in fs.returns():
             t = strip_sites(fs.term_of(s.value, n)) if s.value is not None else ("const", None)
             for a in unphi_terms(t):
+                if a[0] == "tvisit" and a[1].endswith("_rewrite_captured_vars"):
+                    a = a[2]
                 ok = a == ("const", None) or (a[0] == "app" and a[1][0] == "global" and a[1][1].endswith("_parse_source_for_lambda") and bool(a[2]) and a[2][0] == ("param", sub.pos_params[0]))
                 run.check(ok, "C05.R5", sub, s, "helper parse wrapper returns a fresh parse or None", f"{sub.name} returns {show(a)[:100]}: a helper AST that is not freshly parsed (shared between call sites, then substituted in place)", "return _parse_source_for_lambda(x, None)", show(a))
+
+
+def check_helper_closure(run: Run, ctx, m, rcv, rule: str) -> None:
+    """The rewriter applied to an inlined helper is built from the *helper's* closure and module (global_getclosurevars of
+    the very callable that was parsed) - not from the table of the calling lambda - and a helper that is already being
+    inlined is not inlined again (a function that calls itself would never stop)."""
+    from ..lib import unit
+
+    vn = rcv.methods.get("visit_Name")
+    n = 0
+    ctx = TermCtx(m, max_depth=1, opaque={"global_getclosurevars", "_parse_source_for_lambda"})
+    for f in unit(m, vn) + [g for g in m.funcs.values() if g.parent_func is vn]:
+        fa = ctx.analysis(f)
+        for c in calls_in(f):
+            if not (isinstance(c.func, ast.Name) and c.func.id == rcv.name and fa.cfg.has_node(c)):
+                continue
+            n += 1
+            a0 = strip_sites(fa.term_of(c.args[0])) if c.args else ("top", "no argument")
+            parsed = [strip_sites(fa.term_of(p.args[0])) for p in calls_in(f) if isinstance(p.func, ast.Name) and p.func.id == "_parse_source_for_lambda" and p.args and fa.cfg.has_node(p)]
+            ok = a0[0] == "app" and a0[1][0] == "global" and a0[1][1].endswith("global_getclosurevars") and len(a0[2]) == 1 and a0[2][0] in parsed
+            run.check(ok, rule, f, stmt_of(c), "the helper's rewriter is built from global_getclosurevars(<the helper>)", f"the capture rewriter applied to an inlined helper is built from {show(a0)[:100]}, not from the closure and module of the helper that was parsed: its free variables are looked up in somebody else's scope", "_rewrite_captured_vars(global_getclosurevars(x), ..)", show(a0), key="helper rewriter not built from the helper's closure")
+            # the chain of helpers being inlined is handed on, extended by this helper, and consulted before parsing
+            grows = len(c.args) >= 2 or any(k.arg == "inlining" for k in c.keywords)
+            run.check(grows, rule, f, stmt_of(c), "the helpers being inlined are handed on to the nested rewriter", "the nested rewriter is not told which helpers are already being inlined: a helper that calls itself (directly or through another one) is inlined without end", "self._inlining + (x,)", key="no recursion guard when inlining helpers")
+    run.floor(rule, n, 1, "capture rewriters built for inlined helpers")
 
 
 def _inside(a: ast.AST, b: ast.AST) -> bool:
